@@ -118,3 +118,11 @@ Theorem C12_forced_stepper : forall (F : FieldT) (I : Type) (dt : F) (step : (I 
              /\ forced_step F I dt step u f k = step (fun j => u j + dt * f j) k.
 Proof. intros F I dt step Hext u f k. split; [apply forced_zero; exact Hext | reflexivity]. Qed.
 Print Assumptions C12_forced_stepper.
+
+(* non-vacuity of the source tie: the regenerated 2D forcing array evaluated over the rationals (pi := 1, L = 2, gamma = 1, N = 8, forcing
+   mode 2): -(2 pi / L) k gamma N (N / 2) = -64 at the stored index (0, 2), 0 next to it *)
+From Coq Require Import Qcanon.
+Example C12_ex_regenerated_injection :
+  this (gen_injection2d QcField (Q2Qc 1) (Q2Qc 2) (Q2Qc 1) 8 2 [0; 2]%Z) = (-64 # 1)%Q
+  /\ this (gen_injection2d QcField (Q2Qc 1) (Q2Qc 2) (Q2Qc 1) 8 2 [1; 2]%Z) = (0 # 1)%Q.
+Proof. split; vm_compute; reflexivity. Qed.
